@@ -157,6 +157,9 @@ public:
     NetSink* sink = nullptr;
     std::function<ConnectDecision(Conn&)> connect_policy;
     bool healed = false;
+    // fault placement: the next segment from the broker arrives within +-1 ns of this instant (a pending client timer deadline)
+    // instead of after its seeded latency; 0 = off. Set by the driver (FRaceTimer with b = 1), consumed by the next broker_send.
+    ns_t align_next_b2c = 0;
 
     std::vector<std::unique_ptr<Conn>> conns;
     std::vector<WriteRec> writes;
